@@ -115,9 +115,11 @@ def run(command, timeout=30, withexitstatus=False, events=None,
             index = child.expect(patterns)
             if isinstance(child.after, child.allowed_string_types):
                 child_result_list.append(child.before + child.after)
-            else:
+            elif child.after is not TIMEOUT:
                 # child.after may have been a TIMEOUT or EOF,
                 # which we don't want appended to the list.
+                # After a TIMEOUT the text in child.before is still
+                # pending, so it will be returned by a later expect().
                 child_result_list.append(child.before)
             if isinstance(responses[index], child.allowed_string_types):
                 child.send(responses[index])
@@ -128,6 +130,8 @@ def run(command, timeout=30, withexitstatus=False, events=None,
                 if isinstance(callback_result, child.allowed_string_types):
                     child.send(callback_result)
                 elif callback_result:
+                    if child.after is TIMEOUT:
+                        child_result_list.append(child.before)
                     break
             else:
                 raise TypeError("parameter `event' at index {index} must be "
